@@ -4,18 +4,21 @@ import json, os
 ROOT = os.path.dirname(os.path.dirname(os.path.abspath(__file__)))
 GUARD = "TESTTOOLS_VERIF"
 BASE = "cd /repo && /venv/bin/python -m pytest -ra -q -p no:cacheprovider --timeout=900 --continue-on-collection-errors"
-PARTIAL = {}
-CLAIMED = {
- "C19": dict(
-   text="Coq theorems over all suite trees (structural induction on the nested tree; Permutation/Sorted for the sort; "
-        "ValueError iff duplicate ids) about a hand-written Gallina model of iterate_tests/filter_by_ids/sorted_tests/"
-        "list_test, tied to /repo on every run by differential execution of model and implementation inside coqc; the "
-        "oracle for a failing input is the executable statement spec_okb, proved to imply the readable Spec.",
-   note="Trusted: Coq kernel + vm_compute; the harness (generators, drivers, Gallina printer); unittest.TestSuite "
-        "iteration; ids mapped to numbers order-preservingly. All theorems closed under the global context.",
-   technique="Coq proof (structural induction, Permutation/Sorted) + model/implementation correspondence in coqc",
-   ref="6 C19"),
-}
+import ast, glob
+def load_claims():
+    """Each harness/vcheck/props/cNN.py carries MANIFEST = {text, note, technique, ref} (a literal dict)."""
+    out = {}
+    for path in sorted(glob.glob(os.path.join(ROOT, "harness/vcheck/props/c[0-9]*.py"))):
+        tree = ast.parse(open(path).read())
+        info = {}
+        for node in tree.body:
+            if isinstance(node, ast.Assign) and len(node.targets) == 1 and isinstance(node.targets[0], ast.Name):
+                if node.targets[0].id in ("MANIFEST", "PROP"):
+                    info[node.targets[0].id] = ast.literal_eval(node.value)
+        if "MANIFEST" in info and "PROP" in info:
+            out[info["PROP"]] = info["MANIFEST"]
+    return out
+CLAIMED = load_claims()
 NOT_APPLICABLE = {}
 def main():
     props = [json.loads(l)["id"] for l in open(os.path.join(ROOT, "properties.jsonl"))]
